@@ -402,6 +402,11 @@ def main():
     sys.stdout.write('ready\n')
     sys.stdout.flush()
     sys.stdin.readline()
+    if spec.get('rseed') is not None:
+        # every process seeds the global random number generator with the same number just before its operation (what
+        # reproducible scientific scripts do at their top): names the library makes up must still be its own
+        import random
+        random.seed(spec['rseed'])
     res = do_op(klepto, backend, w, keys, a, op)
     try:
         sys.stdout.write(('RES ' if role == 'step' else '') + json.dumps(res) + '\n')
